@@ -50,12 +50,15 @@ def model_layer(run, tier):
             run.model_drift("SBC.tla Terminates not established at N=3: %s" % (res.violated or res.error))
         else:
             run.add_model(res, "SBC_live3: <>(pc = done) under WF(Pipeline), N=3")
-        res = tlc.run("SBC.tla", "SBC_sim4.cfg", simulate={"num": 300000, "depth": 60, "seed": 11}, timeout=1800)
+        # bounded by time (a loaded machine must not turn exploration depth into a failure): reported as far as it got
+        res = tlc.run("SBC.tla", "SBC_sim4.cfg", simulate={"num": 150000, "depth": 60, "seed": 11}, timeout=1200, must_pass=False)
         if res.violated:
             raise MachineryError("design model SBC.tla violates %s in simulation N=4" % res.violated)
-        run.add_model(res, "SBC_sim4: random behaviours for N=4 atoms")
+        if res.error and "timeout" not in res.error:
+            raise MachineryError("SBC_sim4: %s" % res.error)
+        run.add_model(res, "SBC_sim4: random behaviours for N=4 atoms (%s)" % ("complete" if res.rc == 0 else "stopped by the time limit"))
         # exhaustive N=4 is ~1e8+ states: bounded by time, reported as far as it got (BFS, so all shallow behaviours first)
-        res = tlc.run("SBC.tla", "SBC_mc4.cfg", timeout=1500, must_pass=False, heap="24g")
+        res = tlc.run("SBC.tla", "SBC_mc4.cfg", timeout=900, must_pass=False, heap="24g")
         if res.violated:
             raise MachineryError("design model SBC.tla violates %s at N=4" % res.violated)
         run.add_model(res, "SBC_mc4: breadth-first exploration for N=4 atoms (%s)" % ("complete" if res.rc == 0 else "stopped by the time limit"))
